@@ -125,8 +125,23 @@ Proof.
   apply (perm_wf_inj (oP o)); auto; try lia; try (rewrite LP; now apply Hr); try (now apply Hi).
 Qed.
 
-Theorem lin_core N o K Km st (rhs : Vec) :
-  ord_ok N o -> denotes N o K Km -> ldl_factor K = Ok (N, st) -> length rhs = N ->
+(* what the solve path needs from a factorisation state: solve_inplace returns the solution of (the symmetric matrix stored in) K *)
+Definition ldl_solves (K : csc F) (st : ldl_i * ldl_v) : Prop :=
+  forall b : list F, length b = nrows K ->
+    exists x, ldl_solve st b = Ok x /\ length x = nrows K /\
+      forall i, (i < nrows K)%nat -> sum_n (nrows K) (fun j => sym_get K i j * nth j x 0) = nth i b 0.
+
+(* a fresh factorisation (symbolic + numeric phase) without zero pivot provides it: C14_ldl_sparse_correct *)
+Lemma ldl_factor_solves N o K Km st : denotes N o K Km -> ldl_factor K = Ok (N, st) -> ldl_solves K st.
+Proof.
+  intros (Hwf & Hnr & Hnc & Hup & Hnd & _) Hf b Lb. destruct st as [li lv].
+  assert (Hsq : ncols K = nrows K) by lia. rewrite <- Hnr in Hf.
+  destruct (ldl_sparse_correct_full K b Hwf Hsq Hup Hnd Lb li lv Hf) as (_ & _ & _ & _ & _ & _ & x & Ex & Lx & Hx).
+  exists x. auto.
+Qed.
+
+Theorem lin_core_s N o K Km st (rhs : Vec) :
+  ord_ok N o -> denotes N o K Km -> ldl_solves K st -> length rhs = N ->
   exists rp xp sol, ord_perm o (repeat 0 N) rhs = Ok rp /\ ldl_solve st rp = Ok xp /\ ord_permt o rhs xp = Ok sol /\
     length sol = N /\ forall i, (i < N)%nat -> sum N (fun j => symK Km i j * nth j sol 0) = nth i rhs 0.
 Proof.
@@ -135,11 +150,8 @@ Proof.
   destruct Ho as (Hw & LP & LI & Hrng & Hinv).
   destruct (ord_perm_spec (0 : F) o (repeat 0 N) rhs) as (rp & Erp & Lrp & Hrp).
   { intros i Hi. apply perm_wf_range; auto. } { rewrite repeat_length; auto. } { nlia. }
-  destruct st as [li lv].
-  assert (Hsq : ncols K = nrows K) by lia.
   assert (Lrp' : length rp = nrows K) by nlia.
-  rewrite <- Hnr in Hf.
-  destruct (ldl_sparse_correct_full K rp Hwf Hsq Hup Hnd Lrp' li lv Hf) as (_ & _ & _ & _ & _ & _ & xp & Exp & Lxp & Hxp).
+  destruct (Hf rp Lrp') as (xp & Exp & Lxp & Hxp).
   destruct (ord_permt_spec (0 : F) o rhs xp Hw) as (sol & Esol & Lsol & Hsol); try nlia.
   exists rp, xp, sol. split; [exact Erp|]. split; [exact Exp|]. split; [exact Esol|]. split; [nlia|].
   intros i Hi.
@@ -162,6 +174,12 @@ Proof.
   - intros a Ha. apply Hinv; auto.
   - intros a Ha. apply HPI; auto.
 Qed.
+
+Theorem lin_core N o K Km st (rhs : Vec) :
+  ord_ok N o -> denotes N o K Km -> ldl_factor K = Ok (N, st) -> length rhs = N ->
+  exists rp xp sol, ord_perm o (repeat 0 N) rhs = Ok rp /\ ldl_solve st rp = Ok xp /\ ord_permt o rhs xp = Ok sol /\
+    length sol = N /\ forall i, (i < N)%nat -> sum N (fun j => symK Km i j * nth j sol 0) = nth i rhs 0.
+Proof. intros Ho Hden Hf. apply (lin_core_s N o K Km st rhs Ho Hden (ldl_factor_solves N o K Km st Hden Hf)). Qed.
 
 (* ================================================================ accumulation loops over the box indices *)
 Lemma box_loop (g : nat -> Vec -> res Vec) nb L (col : nat -> nat) (t : nat -> F) (neg : bool) (rhs : Vec) :
@@ -666,10 +684,10 @@ Proof.
   repeat split; intros k Hk; try apply (Hm k Hk); try apply (Hlb k Hk); try apply (Hub k Hk).
 Qed.
 
-Theorem full_solve_exact d c o K st r :
+Theorem full_solve_exact_s d c o K st r :
   solve_ok d c -> rhs_ok d r ->
   ord_ok (mode_N MFull d) o -> denotes (mode_N MFull d) o K (Kfull (sys_sparse d c)) ->
-  ldl_factor K = Ok (mode_N MFull d, st) ->
+  ldl_solves K st ->
   exists v, kkt_solve MFull d c o st r = Ok v /\ step_ok d v /\ newton8 d c v r.
 Proof.
   intros Hso Hro Ho Hden Hf.
@@ -686,7 +704,7 @@ Proof.
   assert (L0 : length rhs0 = mode_N MFull d) by (unfold rhs0; rewrite !app_length; cbn [mode_N]; nlia).
   destruct (cond_box d c r Hso Hro rhs0 (mode_N MFull d) L0 ltac:(cbn [mode_N]; lia)) as (rhs1 & rhs2 & E1 & E2 & L2 & Hx & Hrest).
   rewrite E1. cbn [bind]. rewrite E2. cbn [bind].
-  destruct (lin_core _ o K _ st rhs2 Ho Hden Hf L2) as (rp & xp & sol & Ep & Ex & Es & Ls & HR).
+  destruct (lin_core_s _ o K _ st rhs2 Ho Hden Hf L2) as (rp & xp & sol & Ep & Ex & Es & Ls & HR).
   rewrite Ep. cbn [bind]. rewrite Ex. cbn [bind]. rewrite Es. cbn [bind]. cbv beta iota zeta.
   cbn [mode_N] in Ls, HR, Hrest.
   set (dx := head (sd_n d) sol). set (dy := segment (sd_n d) (sd_p d) sol). set (dz := tail_from (sd_n d + sd_p d) sol).
@@ -718,6 +736,13 @@ Proof.
     replace (sd_n d) with (length (t_x r)) by exact R1. replace (sd_p d) with (length (t_y r)) by exact R2.
     rewrite nth_app3_3. unfold zbar. rewrite tabv_nth by exact Hl. reflexivity.
 Qed.
+
+Theorem full_solve_exact d c o K st r :
+  solve_ok d c -> rhs_ok d r ->
+  ord_ok (mode_N MFull d) o -> denotes (mode_N MFull d) o K (Kfull (sys_sparse d c)) ->
+  ldl_factor K = Ok (mode_N MFull d, st) ->
+  exists v, kkt_solve MFull d c o st r = Ok v /\ step_ok d v /\ newton8 d c v r.
+Proof. intros Hso Hro Ho Hden Hf. apply (full_solve_exact_s d c o K st r Hso Hro Ho Hden (ldl_factor_solves _ o K _ st Hden Hf)). Qed.
 
 (* ================================================================ factorisation success *)
 (* the first regularize_and_factorize(false) after init (the LDL object as factorize_symbolic_upper_triangular left it) *)
